@@ -120,6 +120,18 @@ def install(ip):
                 raise SymRaise('TypeError', 'unhashable')
         return SSet(xs)
 
+    @reg('builtins.frozenset')
+    def _frozenset(ip, args, kw):
+        xs = []
+        if args:
+            xs = yield from _list(ip, args, kw)
+        if any(is_sym(x) for x in xs):
+            raise Unsupported('frozenset of symbolic values')
+        try:
+            return frozenset(xs)
+        except TypeError:
+            raise SymRaise('TypeError', 'unhashable')
+
     @reg('builtins.dict')
     def _dict(ip, args, kw):
         d = {}
@@ -176,6 +188,30 @@ def install(ip):
             else:
                 raise Unsupported('isinstance against %r' % (k,))
         return False
+
+    @reg('builtins.type')
+    def _type(ip, args, kw):
+        if len(args) != 1:
+            raise Unsupported('three-argument type()')
+        x = args[0]
+        if isinstance(x, I.SOpt):
+            x = ip.unopt(x, 'type()')
+        if isinstance(x, SObj):
+            return x.cls
+        if isinstance(x, bool) or (is_sym(x) and z3.is_bool(x)):
+            return I.SBuiltin('builtins.bool')
+        if isinstance(x, int) or (is_sym(x) and z3.is_int(x)):
+            return I.SBuiltin('builtins.int')          # f.int / literals: Python ints (numpy integer scalars are not modelled apart)
+        if isinstance(x, (Fraction, float)) or (is_sym(x) and z3.is_real(x)):
+            return I.SBuiltin('builtins.float')
+        if isinstance(x, (str, SStr)):
+            return I.SBuiltin('builtins.str')
+        for t, nm in ((list, 'list'), (tuple, 'tuple'), (dict, 'dict')):
+            if isinstance(x, t):
+                return I.SBuiltin('builtins.' + nm)
+        if isinstance(x, SArr):
+            return I.SBuiltin('numpy.ndarray')
+        raise Unsupported('type() of %r' % (x,))
 
     for nm in ('str', 'int', 'float', 'bool', 'object', 'super', 'abs', 'min', 'max', 'sum', 'print', 'hasattr',
                'getattr', 'type', 'sorted', 'reversed', 'any', 'all', 'round', 'callable', 'id'):
@@ -271,6 +307,28 @@ def install(ip):
                 return False
             raise
 
+    @reg('builtins.getattr')
+    def _getattr(ip, args, kw):
+        if len(args) not in (2, 3) or kw:
+            raise Unsupported('getattr() call shape')
+        o, n = args[0], args[1]
+        if not isinstance(n, str):
+            raise Unsupported('getattr with a symbolic name')
+        try:
+            r = yield from ip.getattr(o, n)
+            return r
+        except SymRaise as e:
+            if len(args) == 3 and exc_isinstance(e.name, 'AttributeError'):
+                return args[2]
+            raise
+
+    @reg('builtins.setattr')
+    def _setattr(ip, args, kw):
+        o, n, v = args
+        if not isinstance(n, str):
+            raise Unsupported('setattr with a symbolic name')
+        yield from ip.setattr(o, n, v)
+
     # ------------------------------------------------------------------ list / dict / str methods
     @reg('list.append')
     def _append(ip, args, kw):
@@ -327,7 +385,10 @@ def install(ip):
         for a in args:
             xs = yield from _list(ip, [a], {})
             lists.append(xs)
-        return [tuple(t) for t in itertools.product(*lists)]
+        rep = kw.get('repeat', 1)
+        if is_sym(rep):
+            raise Unsupported('product with a symbolic repeat')
+        return [tuple(t) for t in itertools.product(*lists, repeat=int(rep))]
 
     @reg('builtins.any')
     def _bany(ip, args, kw):
@@ -356,6 +417,30 @@ def install(ip):
         if is_sym(r):
             raise Unsupported('combinations with a symbolic r')
         return [tuple(t) for t in itertools.combinations(xs, int(r))]
+
+    @reg('itertools.combinations_with_replacement')
+    def _combinations_wr(ip, args, kw):
+        xs = yield from _list(ip, [args[0]], {})
+        r = args[1] if len(args) > 1 else kw['r']
+        if is_sym(r):
+            raise Unsupported('combinations_with_replacement with a symbolic r')
+        return [tuple(t) for t in itertools.combinations_with_replacement(xs, int(r))]
+
+    @reg('itertools.permutations')
+    def _permutations(ip, args, kw):
+        xs = yield from _list(ip, [args[0]], {})
+        r = args[1] if len(args) > 1 else kw.get('r')
+        if is_sym(r):
+            raise Unsupported('permutations with a symbolic r')
+        return [tuple(t) for t in itertools.permutations(xs, None if r is None else int(r))]
+
+    @reg('itertools.chain')
+    def _chain(ip, args, kw):
+        out = []
+        for a in args:
+            xs = yield from _list(ip, [a], {})
+            out.extend(xs)
+        return out
 
     @reg('dict.fromkeys')
     def _fromkeys(ip, args, kw):
@@ -496,6 +581,47 @@ def install(ip):
 
     M['numpy.ascontiguousarray'] = M['numpy.asarray']
 
+    def _zero_of(dtype):
+        return z3.RealVal(0) if dtype == 'real' else (False if dtype == 'bool' else 0)
+
+    @reg('numpy.diag')
+    def _npdiag(ip, args, kw):
+        if len(args) > 1 or kw:
+            raise Unsupported('np.diag with an offset')
+        a = ip.as_array(ip.unopt(args[0]))
+        if len(a.shape) == 1:           # vector -> diagonal matrix of the same dtype
+            sa, dt, n = a.snapshot(ip.st), a.dtype, a.shape[0]
+            return ip.st.new_array((n, n), lambda idx: mk_ite(mk_eq(idx[0], idx[1]), sa((idx[0],)), _zero_of(dt)), dt)
+        if len(a.shape) == 2:           # matrix -> copy of its diagonal (numpy returns a read-only view; copied here)
+            sa = a.snapshot(ip.st)
+            if not (is_num(a.shape[0]) and is_num(a.shape[1])):
+                raise Unsupported('np.diag of a matrix of symbolic shape')
+            return ip.st.new_array((min(a.shape[0], a.shape[1]),), lambda idx: sa((idx[0], idx[0])), a.dtype)
+        raise SymRaise('ValueError', 'Input must be 1- or 2-d.')
+
+    @reg('numpy.tile')
+    def _nptile(ip, args, kw):
+        a = ip.as_array(ip.unopt(args[0]))
+        reps = ip.unopt(args[1] if len(args) > 1 else kw['reps'])
+        reps = tuple(reps) if isinstance(reps, (tuple, list)) else (reps,)
+        nd = len(a.shape)
+        if len(reps) < nd:
+            reps = (1,) * (nd - len(reps)) + reps
+        lead, tail = reps[:len(reps) - nd], reps[len(reps) - nd:]
+        if not all(is_num(x) and x == 1 for x in tail):
+            raise Unsupported('np.tile repeating an existing axis')
+        sa, k = a.snapshot(ip.st), len(lead)
+        return ip.st.new_array(tuple(lead) + tuple(a.shape), lambda idx: sa(tuple(idx[k:])), a.dtype)
+
+    @reg('numpy.eye')
+    def _npeye(ip, args, kw):
+        if len(args) > 1 or kw:
+            raise Unsupported('np.eye with more than one argument')
+        n = ip.unopt(args[0])
+        return ip.st.new_array((n, n), lambda idx: mk_ite(mk_eq(idx[0], idx[1]), z3.RealVal(1), z3.RealVal(0)), 'real')
+
+    M['numpy.identity'] = M['numpy.eye']
+
     for fn in ('exp', 'log', 'sin', 'cos', 'sqrt', 'abs'):
         def mk2(fn):
             def f(ip, args, kw):
@@ -524,6 +650,12 @@ def install(ip):
         f = z3.Function('np_any', z3.ArraySort(z3.IntSort(), z3.BoolSort()), z3.IntSort(), z3.BoolSort())
         i = z3.Int('eta!i')
         return f(z3.Lambda([i], to_bool(a.elem(ip.st, (i,)))), to_int(a.shape[0]))
+
+    @reg('ndarray.any')
+    def _ndany(ip, args, kw):
+        if len(args) != 1 or kw:
+            raise Unsupported('ndarray.any with arguments')
+        return _any(ip, args, kw)
 
     @reg('numpy.all')
     def _all(ip, args, kw):
@@ -639,6 +771,7 @@ def install(ip):
 
     @reg('numpy.errstate')
     def _errstate(ip, args, kw):
+        list(kw.items())            # floating-point error *reporting* only: no effect on values
         return I.SCtx()
 
     @reg('numpy.loadtxt')
@@ -789,7 +922,10 @@ def install(ip):
         yield from ip.call(F, [xa], {})
         xs = sym_vec('x')
         fs = yield from ip.call(F, [xs], {})
-        return I.SRecord('OptimizeResult', x=xs, fun=fs, success=z3.Bool('root!%d!success' % k))
+        # the solver settings are part of the call: they are remembered in the (ghost) fields _method/_options so that
+        # code which drops or replaces the caller's method / options differs from the contract
+        return I.SRecord('OptimizeResult', x=xs, fun=fs, success=z3.Bool('root!%d!success' % k),
+                         _method=kw.get('method', 'hybr'), _options=kw.get('options', None))
 
     @reg('builtins.koyama_w')
     def _koyama_w(ip, args, kw):
